@@ -278,9 +278,36 @@ pub fn set_sandbox(on: bool) {
     USE_SANDBOX.with(|c| c.set(on));
 }
 
+thread_local! {
+    static SCOPE_PRELUDE: std::cell::RefCell<Vec<String>> = const { std::cell::RefCell::new(Vec::new()) };
+    static PRELUDE_ACCEPTED: std::cell::Cell<bool> = const { std::cell::Cell::new(false) };
+}
+
+/// texts fed to the *same* compilation scope before the text under test by the next `compile` calls on
+/// this thread; they are meant to be rejected (a rejected text must leave no trace on the scope)
+pub fn set_scope_prelude(texts: Vec<String>) {
+    SCOPE_PRELUDE.with(|p| *p.borrow_mut() = texts);
+}
+
+pub fn scope_prelude_hash() -> u64 {
+    SCOPE_PRELUDE.with(|p| p.borrow().iter().fold(0x9e37_79b9_7f4a_7c15u64, |h, t| crate::prng::fnv(h, t.as_bytes())))
+}
+
+/// whether one of the prelude texts of the last compilation on this thread was accepted (the scenario then says nothing)
+pub fn prelude_was_accepted() -> bool {
+    PRELUDE_ACCEPTED.with(|c| c.get())
+}
+
 /// compile `text` on top of the std library under the *currently installed* world
 pub fn compile_in_world(text: &str) -> Result<Scope, String> {
     let mut scope: Scope = if USE_SANDBOX.with(|c| c.get()) { sandbox_scope() } else { xray::std_compilation_scope() };
+    PRELUDE_ACCEPTED.with(|c| c.set(false));
+    let prelude = SCOPE_PRELUDE.with(|p| p.borrow().clone());
+    for t in &prelude {
+        if scope.feed_file(t).is_ok() {
+            PRELUDE_ACCEPTED.with(|c| c.set(true));
+        }
+    }
     match scope.feed_file(text) {
         Ok(()) => Ok(scope),
         Err(e) => Err(format!("{e}")),
